@@ -31,7 +31,7 @@ def _set_of(node, env=None):
     return None
 
 
-def make_atomizer(subst, env):
+def make_atomizer(subst, env, set_names=()):
     """Canonical atoms (Appendix D).  ``subst`` maps loop variables to the literal they range over (unrolling)."""
 
     def nm(node):
@@ -40,10 +40,27 @@ def make_atomizer(subst, env):
         return None
 
     def atom(n):
+        # temporaries such as ``n_objects = len(objects)`` are replaced by their definitions if the plain spelling is unknown
+        a = atom0(n)
+        if a is None and env is not None and not isinstance(n, ast.Name):
+            a = atom0(env.expand(n))
+        return a
+
+    def atom0(n):
         # Empty(x): ``not x`` is handled by the caller via polarity of a bare name
         if isinstance(n, ast.Name):
             x = nm(n)
             return (f'Empty({x})', False)
+        # a <= b between sets: subset
+        if isinstance(n, ast.Compare) and len(n.ops) == 1 and isinstance(n.ops[0], (ast.LtE, ast.GtE)) \
+                and isinstance(n.left, (ast.Name, ast.Call)) and isinstance(n.comparators[0], (ast.Name, ast.Call)):
+            a_, b_ = (n.left, n.comparators[0]) if isinstance(n.ops[0], ast.LtE) else (n.comparators[0], n.left)
+            a_set = _set_of(a_) is not None or (isinstance(a_, ast.Name) and set_names and a_.id in set_names)
+            if a_set:
+                an = nm(a_) if isinstance(a_, ast.Name) else (f'set({nm(_set_of(a_))})' if nm(_set_of(a_)) else None)
+                bn = nm(b_) if isinstance(b_, ast.Name) else None
+                if an and bn:
+                    return (f'NotSubset({an},{bn})', False)
         if isinstance(n, ast.Compare) and len(n.ops) == 1:
             op, l, r = n.ops[0], n.left, n.comparators[0]
             ll, lr = _len_of(l), _len_of(r)
@@ -458,7 +475,9 @@ def fromdict_rules(model, R):
         fs = []
         try:
             for s, conds, subst in rs:
-                fs.append(formula_of(conds, make_atomizer(subst, menv), make_set))
+                set_locals = {s_.targets[0].id for s_ in make_set.body if isinstance(s_, ast.Assign) and isinstance(s_.targets[0], ast.Name)
+                              and _set_of(s_.value) is not None}
+                fs.append(formula_of(conds, make_atomizer(subst, menv, set_locals), make_set))
         except Unrecognised as e:
             R.unknown('GUARD', make_set, e.node, 'row guard atom', e.what)
             fs = None
@@ -475,7 +494,10 @@ def fromdict_rules(model, R):
                         used.append(a)
             dup = f'HasDup({r})'
             idx_name = make_set.params[1] if len(make_set.params) > 1 else 'indexes'
-            sub = f'NotSubset({res},{idx_name})'
+            subs = [a for a in used if a.startswith(f'NotSubset({res},')]
+            sub = subs[0] if subs else f'NotSubset({res},{idx_name})'
+            if subs:
+                idx_name = sub[len(f'NotSubset({res},'):-1]
             empty = f'Empty({res})'
             maxge = [a for a in used if a.startswith(f'MaxGE({res},')]
             maxgt = [a for a in used if a.startswith(f'MaxGT({res},')]
@@ -513,6 +535,11 @@ def fromdict_rules(model, R):
                         f'len({v_prop})', btext)
             # the index universe: default ``indexes=set(indexes)`` with indexes = tuple(range(len(properties)))
             dflt = make_set.defaults().get(idx_name)
+            if dflt is None:   # a free variable of the nested function, bound in the enclosing function
+                for s_ in func.body:
+                    if isinstance(s_, ast.Assign) and isinstance(s_.targets[0], ast.Name) and s_.targets[0].id == idx_name and _wraps(s_.value, 'indexes'):
+                        dflt = s_.value
+                        idx_name = 'indexes'
             subset_idiom = sub in used
             universe = None
             for s in func.body:
@@ -532,6 +559,9 @@ def fromdict_rules(model, R):
                    and name_is(n.args[0], make_set.name) and name_is(n.args[1], v_ctx)]
         applied += [n for n in walk(func.body) if isinstance(n, (ast.ListComp, ast.GeneratorExp)) and isinstance(n.elt, ast.Call)
                     and name_is(n.elt.func, make_set.name) and name_is(n.generators[0].iter, v_ctx)]
+        for lp in [s_ for s_ in func.body if isinstance(s_, ast.For) and name_is(s_.iter, v_ctx) and isinstance(s_.target, ast.Name)]:
+            applied += [n for n in walk(lp.body) if isinstance(n, ast.Call) and name_is(n.func, make_set.name) and n.args
+                        and name_is(n.args[0], lp.target.id) and lp.body and any(n is m for m in ast.walk(lp.body[0]))]
         R.check(bool(applied), 'GUARD', func, applied[0] if applied else func.node, 'every context row passes the row checker',
                 f'map(_make_set, {v_ctx})')
     # construction after the guards, with the values from the dict unmodified
